@@ -329,6 +329,21 @@ def eval_case(case, seed, thorough):
             its = list(items[:pos]) + [scene.Item(x.frame, conn=99, dir=x.dir, tag=x.tag, seg=x.seg) for x in nf.items] + list(items[pos:])
             scene.stamp(its, random.Random(rep), "plain")
             faults.append((f"plain HTTP exchange on port 443 inserted at {pos}", its, keys, [] if rep else ["-a"], "foreign-rebased"))
+        # a TLS connection between two watched ports (client port 44330 or 443 by chance, or two -p ports): which side is the server cannot be told from the ports;
+        # whatever TLExport makes of it, and of damaged variants of its first segments, the run completes and nobody else is touched (its keys are not in the log)
+        cp, sp_, xo = frng.choice([(44330, 443, []), (443, 44330, []), (8443, 9443, ["-p", "8443", "9443"]), (443, 8443, ["-p", "8443"])])
+        bep = tcpcap.Endpoints(frng.randbytes(6), frng.randbytes(6), bytes([10, 9, frng.randrange(256), 1]), bytes([10, 9, frng.randrange(256), 2]), cp, sp_, frng.randrange(1 << 32), frng.randrange(1 << 32))
+        bf = gen.random_tls_flow(frng, 98, ep=bep, nmax=3, min_records=1)
+        first = next(i for i, it in enumerate(bf.items) if it.seg is not None and it.seg.payload)
+        for cutlen in (None, 1, 3, 5, 6, 12):
+            bits = list(bf.items)
+            if cutlen is not None:
+                bits[first] = reframe(bits[first], bep, lambda pl, n_=cutlen: pl[:n_])
+            pos = frng.randrange(0, len(items) + 1)
+            its = list(items[:pos]) + [scene.Item(x.frame, conn=99, dir=x.dir, tag="both-ports", seg=x.seg) for x in bits] + list(items[pos:])
+            scene.stamp(its, random.Random(cutlen or 0), "plain")
+            faults.append((f"TLS connection between two watched ports ({cp}->{sp_}), first payload {'whole' if cutlen is None else f'shortened to {cutlen} bytes'}, inserted at {pos}",
+                           its, keys, xo + (["-a"] if cutlen == 3 else []), "foreign-rebased"))
     elif kind in ("noise-udp", "noise-udp-short"):
         payloads = []
         if kind == "noise-udp-short":
